@@ -1,8 +1,15 @@
 """Source of MANIFEST.json (bin/mkmanifest writes it).  One entry per claimed property."""
 
-HOOK_COMMITS = ["ed224dc", "bc3b859"]
+HOOK_COMMITS = ["ed224dc", "bc3b859", "c46a242"]
 
 ENGINES = [
+    {"name": "pipe", "path": "specs/IovecPipe.tla specs/PipeTrace.tla specs/FootprintTrace.tla lib/engines/pipe.py "
+     "harness/src/pipe.rs harness/src/footprint.rs",
+     "serves_properties": ["C03", "C04", "C05", "C20", "C10"],
+     "kind_free_text": "TLA+ A-spec of the OwningIovec as a FIFO byte pipe with deferred holes over run-list byte strings, "
+     "one world of live objects + held AnchoredSlices; TLC validates after every operation the observation of every live "
+     "object, the classification of every exposed slice against the live-chunk registry (hook H2), chunk releases, and the "
+     "live counters; long-stream footprint samples are validated by FootprintTrace"},
     {"name": "stream", "path": "specs/StreamFraming.tla specs/StreamMC.tla specs/StreamTrace.tla lib/engines/stream.py "
      "harness/src/stream.rs",
      "serves_properties": ["C08", "C06"],
@@ -36,7 +43,75 @@ STREAM_NOTE = ("Bounded: exhaustive for streams <= 5 (chunker) / <= 4 (reader) o
                "EINTR schedules; prepared arena fill states for the chunker). Hard I/O errors inside the chunker are outside "
                "the property (covered for read_n by C17). Judges other than chunk_judge are not driven.")
 
+PIPE_NOTE = ("Conformance level: every event of seeded random histories (400 x 60 operations quick / 6000 x 80 thorough, up to 3 live "
+             "objects, sizes around 64 / 256 / 4096, every producer and consumer method, placeholders filled in any order, clone/"
+             "take, arena flush/swap/reserve, anchored pushes, held AnchoredSlices with split/skip/clone) plus scripted corner "
+             "histories is validated by TLC against the A-spec; each history ends with fill-all, consume-all, drop-all. The "
+             "implementation-shaped I-spec of OwningIovec (slices/anchors/arena) is design work in progress: at present the design "
+             "level for this engine is the A-spec itself plus the SortedDeque/SlidingDeque I-specs it is built on (deque engine). "
+             "Trusts hook H2 (registry calls in Chunk::new/Drop; verif_projection is read-only), debug poison 0xFC, TLC, the harness "
+             "recording. Address reuse by the allocator can hide a dangling slice from the registry classification (content "
+             "comparison still applies). A process death of the harness (abort on an unsafe-precondition check, segfault) in a run is "
+             "recorded as a violation of C05 for that run.")
+
 CHECKS = {
+    "C03": {
+        "engine": "pipe",
+        "technique": "TLA+ A-spec (byte pipe with holes over run lists) + TLC trace validation of every event of random/scripted OwningIovec histories",
+        "text": "IovecPipe.tla models each live OwningIovec as the sequence of unconsumed bytes (with hole cells for pending placeholders); "
+                "every producer operation appends / fills / moves / copies, every consumer operation removes a prefix. After every "
+                "operation of every recorded history TLC checks for every live object: total_size = appended - consumed, len()=0 iff empty, "
+                "no empty exposed slice, slice lengths add up, stable bytes = the model's prefix (content, order, backfilled values), "
+                "stable_prefix / iteration / iovs / front / flatten / flatten_into agree, every consume / advance_slices / pop_front / "
+                "Read returns exactly what it removed and hands out exactly the model's bytes.",
+        "design_ref": "DESIGN.md section 6, C03",
+        "note": PIPE_NOTE,
+    },
+    "C04": {
+        "engine": "pipe",
+        "technique": "TLA+ A-spec with hole cells + TLC trace validation (stable boundary, ok-flags, fill order) of OwningIovec histories incl. backpatch storms",
+        "text": "Same traces as C03, with the constraints of C04: the stable view never extends past the earliest pending hole, iovs / "
+                "flatten / has_pending_backrefs report success exactly when no hole is pending, with none pending every buffered byte is "
+                "consumable with the fill values in place, consumption never crosses a hole, no panic in register_patch/backfill_or_panic "
+                "for any fill order (finding F2 is such a panic). A 'storm' profile keeps up to 5 holes in flight with out-of-order fills, "
+                "byte-wise consumption right up to a hole, and registration into merged slices.",
+        "design_ref": "DESIGN.md section 6, C04",
+        "note": PIPE_NOTE,
+    },
+    "C05": {
+        "engine": "pipe",
+        "technique": "live-chunk registry (hook H2) classification validated by TLC against the A-spec world; codec runs with arena flush probes",
+        "text": "Before reading it, the harness classifies every slice reachable through the read side of every live OwningIovec, every "
+                "held AnchoredSlice and every codec consumer as inside a live registered chunk / inside a lent buffer / dangling, and "
+                "logs every chunk creation and release together with the number of buffered slices or AnchoredSlices still pointing into a "
+                "released chunk. TLC checks: nothing is ever dangling, nothing is released while reachable, held AnchoredSlices keep their "
+                "bytes through split/skip/clone, readable bytes equal the model (a stale read shows as 0xFC poison). Codec runs add arena "
+                "flushes after decode errors and at random points. A process death counts as a violation.",
+        "design_ref": "DESIGN.md section 6, C05",
+        "note": PIPE_NOTE,
+    },
+    "C20": {
+        "engine": "pipe",
+        "technique": "TLA+ A-spec world of several objects + TLC trace validation of all objects after every operation (independence)",
+        "text": "Clone copies the model state, take moves it (including pending holes) and leaves an empty object. Because every event carries "
+                "the observation of every live object, TLC checks after every later operation on either side that the other one is "
+                "unchanged and valid (contents, flags, liveness of its slices), including pushes that merge in place, placeholder "
+                "registration and fill on either side, consumption, clear, arena swaps and dropping either side first.",
+        "design_ref": "DESIGN.md section 6, C20",
+        "note": PIPE_NOTE,
+    },
+    "C10": {
+        "engine": "pipe",
+        "technique": "TLC trace validation: live-counter monitor at the end of every run of every arena-touching engine + footprint/growth monitor on long streams",
+        "text": "No-leak: every run of the pipe, codec and stream engines ends by dropping every object; TLC checks the process-wide live "
+                "chunk/byte counters return to their value at the start of the run. Bounded footprint: 64 MiB (quick) / 512 MiB (thorough) "
+                "per run are streamed through the real Encoder and Encoder->Decoder pipeline (4 payload shapes x copy/borrow/read input x "
+                "3 drain APIs x call-size schedules incl. 1-byte and 300000-byte calls) and a StreamReader skipping a 12 / 96 MiB record; "
+                "TLC checks live bytes <= 8 MiB per codec object at every sample and that the second half of the run does not exceed the "
+                "first half by more than 1 MiB (a leak grows linearly).",
+        "design_ref": "DESIGN.md section 6, C10",
+        "note": PIPE_NOTE + " The footprint bound is validated on sampled schedules, not proved.",
+    },
     "C08": {
         "engine": "stream",
         "technique": "TLA+ spec + TLC model checking of the transcribed chunker; enumerated-configuration replay and TLC trace validation of real pump() chunks",
